@@ -344,7 +344,8 @@ def run(chk: Check):
         "level; index sizes all-2 plus seeded draws from {0,1,2,3}; input sparsity patterns: every combination of stored "
         "subsets of the operands when there are at most 64 (quick) / 512 (thorough) combinations, otherwise a seeded "
         "sample always containing all-empty, all-full, all-explicit-zeros and each operand empty against full others; "
-        "values include explicit stored zeros; a case is distinct by (problem, sizes, stored pattern) and non-trivial "
+        "values include explicit stored zeros; besides the evaluate output, the structure left by the stand-alone assemble kernel "
+        "(its IR run on the Python IR interpreter) for up to 16/96 patterns per problem; a case is distinct by (problem, sizes, kernel kind, stored pattern) and non-trivial "
         "when some operand leaves a cell unstored"
     )
     chk.trusted += [
@@ -400,6 +401,12 @@ def run(chk: Check):
                               {"assignment": a, "formats": f, "sizes": o["sizes"], "entries": o["entries"]})
                 continue
             cases.append((ast, a, f, o))
+            if o.get("assemble_out"):
+                # the structure the stand-alone assemble kernel leaves, judged like an output
+                cases.append((ast, a, f, dict(o, out=o["assemble_out"], kernel="assemble", alloc_problems=None)))
+                chk.count("cases:assemble-kernel-structure")
+            elif o.get("assemble_note"):
+                chk.count("assemble-not-judged:" + o["assemble_note"].split(":")[0][:60])
         if crashed:
             chk.violation(f"kernel crashed or hung (worker exit {rc}); stderr: {err[-300:]}",
                           {k: crashed.get(k) for k in ("assignment", "formats", "sizes", "entries") if k in crashed})
@@ -408,7 +415,7 @@ def run(chk: Check):
     flagged, passed = [], []
     for ast, a, f, o in cases:
         nontrivial = classify_nontrivial(o["inputs"], o["out"])
-        chk.case((a, json.dumps(f, sort_keys=True), json.dumps(o["sizes"], sort_keys=True),
+        chk.case((a, json.dumps(f, sort_keys=True), json.dumps(o["sizes"], sort_keys=True), o.get("kernel", "evaluate"),
                   json.dumps({n: sorted(map(list, M.stored_set(r))) for n, r in o["inputs"].items()}, sort_keys=True)),
                  nontrivial=nontrivial)
         chk.count("cases")
@@ -500,7 +507,7 @@ def run(chk: Check):
 
     seen = set()
     for ast, a, f, o, ph, term in viol:
-        h = a + json.dumps(f, sort_keys=True)
+        h = a + json.dumps(f, sort_keys=True) + o.get("kernel", "")
         if h in seen:
             chk.count("violations:suppressed-duplicates")
             continue
@@ -512,7 +519,7 @@ def run(chk: Check):
         m = re.search(r"=\s*(.*?)\s*:\s*list", outp, flags=re.S)
         chk.violation(
             "a compressed output level stores a coordinate without structural support",
-            {"assignment": a, "formats": f, "sizes": o["sizes"], "entries": o["entries"],
+            {"assignment": a, "formats": f, "sizes": o["sizes"], "entries": o["entries"], "kernel": o.get("kernel", "evaluate"),
              "inputs_raw": o["inputs"], "output_raw": o["out"],
              "phantoms_level_and_level_order_prefix": ph,
              "coq_phantoms": " ".join(m.group(1).split()) if (ok and m) else outp[-300:]},
